@@ -191,6 +191,12 @@ fn set_entry(s: &mut Script, rng: &mut Rng, e: i64, vs: Option<&ValidStream>, zl
 // ------------------------------------------------------------------------------------------------
 
 pub fn gen_c03(rng: &mut Rng, _i: u64, tier: Tier) -> Script {
+    if rng.chance(8, 100) {
+        let zlib = rng.chance(1, 2);
+        let target = small_target(rng, tier).min(20_000);
+        let vs = valid_stream(rng, zlib, target, 32768, None);
+        return c_entry_script(rng, "C03", zlib, &vs, None);
+    }
     let mut s = Script::new("C03", "dec");
     let zlib = rng.chance(1, 2);
     let target = small_target(rng, tier);
@@ -328,7 +334,52 @@ pub fn gen_c04(rng: &mut Rng, _i: u64, tier: Tier) -> Script {
 // C06
 // ------------------------------------------------------------------------------------------------
 
+fn c_entry_script(rng: &mut Rng, prop: &str, zlib: bool, vs: &ValidStream, tail: Option<Vec<i64>>) -> Script {
+    // the same stream through mz_inflate (family 1) or tinfl_decompress (family 5) of the C shim
+    let mut s = Script::new(prop, "cabi");
+    let fam = rng.pick(&[1i64, 5]);
+    s.set("family", fam);
+    s.set("zlib", zlib as i64);
+    let mut total = vs.bytes.len();
+    if let Some(t) = tail {
+        total += t[2] as usize;
+        s.faults.push(t);
+        s.set("enc_len", vs.enc_len as i64);
+    } else {
+        s.set("expect_valid", 1);
+    }
+    let style = rng.next_u64();
+    if fam == 1 {
+        s.set("init1", rng.chance(1, 3) as i64);
+        s.ops = gen::stream_ops(rng, total + 8, style, &[0, 0, 0, 1, 2]);
+    } else {
+        let ring = rng.chance(1, 2);
+        s.set("mode", ring as i64);
+        s.set("ring_bits", 15);
+        s.set("flat_cap", (vs.plain_len + rng.pick(&[1usize, 2, 300])) as i64);
+        s.set("plain_len", vs.plain_len as i64);
+        s.ops = gen::core_ops(rng, total + 4, style);
+    }
+    s.set_blob("stream", vs.bytes.clone());
+    s
+}
+
+pub fn exec_dec_or_cabi(s: &Script, st: &mut crate::script::Stats) -> Result<crate::runner::RunInfo, crate::script::Violation> {
+    match s.scen.as_str() {
+        "cabi" => crate::cabi::exec(s, st),
+        _ => crate::dec::exec(s, st),
+    }
+}
+
 pub fn gen_c06(rng: &mut Rng, _i: u64, tier: Tier) -> Script {
+    if rng.chance(15, 100) {
+        let zlib = rng.chance(1, 2);
+        let target = small_target(rng, tier).min(20_000);
+        let vs = valid_stream(rng, zlib, target, 32768, None);
+        let tl = rng.range(0, 64);
+        let tailf = vec![F_TAIL, rng.below(1 << 30) as i64, tl as i64, rng.below(4) as i64];
+        return c_entry_script(rng, "C06", zlib, &vs, Some(tailf));
+    }
     let mut s = Script::new("C06", "dec");
     let zlib = rng.chance(1, 2);
     s.set("zlib", zlib as i64);
@@ -628,7 +679,7 @@ pub fn defs() -> Vec<CheckDef> {
             runs_thorough: 12_000_000,
             block: 512,
             gen: gen_c03,
-            exec: crate::dec::exec,
+            exec: exec_dec_or_cabi,
             rule: "run = (valid stream from the foreign grammar-driven encoder or from the crate's compressor) x decoder entry point {core flat, core ring 2^k, inflate(), decompress_to_vec*, slice-iter} x seeded delivery/grant schedule; non-trivial = the run had at least one suspension (input-starved or output-full return) or several input slices; distinct = distinct shape fingerprint (entry point, mode, size classes of stream and of each op, foreign-encoder features used)",
             shrink_cfg: SHRINK_DEC,
             shrink_blobs: false,
@@ -654,7 +705,7 @@ pub fn defs() -> Vec<CheckDef> {
             runs_thorough: 10_000_000,
             block: 512,
             gen: gen_c06,
-            exec: crate::dec::exec,
+            exec: exec_dec_or_cabi,
             rule: "run = valid stream S + trailing bytes T (0..64; random / 0x00 / 0xFF / looks like another stream) delivered with cuts 0..9 bytes around |S| and random schedules to {core flat, core ring, inflate() None/Finish}; oracle: total consumed == |S| (generator ground truth == reference inflater), S alone also completes; non-trivial = trailing bytes present or suspension; distinct = shape fingerprint",
             shrink_cfg: SHRINK_DEC,
             shrink_blobs: false,
